@@ -1236,4 +1236,403 @@ theorem inv_aliasPair {w : World} (h : Inv w) (k : Nat) (p1 p2 : String) : Inv (
         · obtain ⟨r, hr, hrn, hrt⟩ := dn.root
           exact ⟨r, hr, by rw [hss.name]; exact hrn, by rw [hss.lis]; exact hrt⟩
 
+/-! ## `unaliasParameters(p1, p2)` -/
+
+/-- the world a successful `unaliasParameters(p1, p2)` ends in -/
+def unaliased (w : World) (k : Nat) (o : Obj) (p1 p2 : String) (i1 i2 : ObjId) : World :=
+  (w.setLsn i1 ((w.lsn i1).filter (fun l => (w.lis l).id != aliasId p1 p2))).setObj k
+    { params := o.params, indep := o.indep ++ [i2], reg := mapErase (aliasId p1 p2) o.reg, pre := o.pre }
+
+/-- a registered link `p2 follows p1`: where it is attached and what it writes to -/
+theorem reg_entry_of_id {w : World} {k : Nat} {o : Obj} (h : ObjInv w k o) {p1 p2 : String} {i2 : ObjId} {l0 : Nat}
+    (hm2 : i2 ∈ o.params) (hn2 : nameOf w.heap i2 = o.pre ++ p2) (he : (aliasId p1 p2, l0) ∈ o.reg) :
+    (w.lis l0).src = p1 ∧ o.params[(w.lis l0).alias]? = some i2 := by
+  obtain ⟨t, y, ht, htn, _, hid⟩ := (h.regOk _ he).tgt
+  have py : Plain y := by
+    obtain ⟨x, hx, px⟩ := h.plain t (List.mem_of_getElem? ht)
+    have : x = y := append_left_cancel' (hx.symm.trans htn)
+    exact this ▸ px
+  have pp2 : Plain p2 := by
+    obtain ⟨x, hx, px⟩ := h.plain i2 hm2
+    have : x = p2 := append_left_cancel' (hx.symm.trans hn2)
+    exact this ▸ px
+  obtain ⟨e1, e2⟩ := aliasId_inj pp2 py hid
+  subst e2
+  have : t = i2 := h.name_inj (List.mem_of_getElem? ht) hm2 (htn.trans hn2.symm)
+  subst this
+  exact ⟨e1.symm, ht⟩
+
+theorem unalias_spec {w : World} {k : Nat} {o : Obj} (h : ObjInv w k o) (ho : w.objs k = some o) (p1 p2 : String) :
+    let r := unalias w k p1 p2
+    (r.err ≠ none → r.w = w) ∧
+    (r.err = none → ∃ i1 i2 l0, find? w.heap o.params (o.pre ++ p1) = some i1 ∧
+        find? w.heap o.params (o.pre ++ p2) = some i2 ∧ (aliasId p1 p2, l0) ∈ o.reg ∧ i2 ∉ o.indep ∧
+        r.w = unaliased w k o p1 p2 i1 i2) := by
+  intro r
+  have hr : r = unalias w k p1 p2 := rfl
+  simp only [unalias, ho] at hr
+  cases h1 : find? w.heap o.params (o.pre ++ p1) with
+  | none => rw [h1] at hr; rw [hr]; exact ⟨fun _ => rfl, fun x => by cases x⟩
+  | some i1 =>
+    cases h2 : find? w.heap o.params (o.pre ++ p2) with
+    | none => rw [h1, h2] at hr; rw [hr]; exact ⟨fun _ => rfl, fun x => by cases x⟩
+    | some i2 =>
+      rw [h1, h2] at hr
+      simp only at hr
+      cases hf : mapFind? (aliasId p1 p2) o.reg with
+      | none => rw [hf] at hr; rw [hr]; exact ⟨fun _ => rfl, fun x => by cases x⟩
+      | some l0 =>
+        rw [hf] at hr
+        simp only at hr
+        have he : (aliasId p1 p2, l0) ∈ o.reg := (mapFind?_eq_some h.regKeys).1 hf
+        obtain ⟨hm2, hn2⟩ := ParamList.find?_some h2
+        obtain ⟨_, htgt⟩ := reg_entry_of_id h hm2 hn2 he
+        have hnot : i2 ∉ o.indep := fun hin => (h.indepIff i2 hm2).1 hin ⟨_, he, htgt⟩
+        have hhas : hasParameter w.heap o.indep (nameOf w.heap i2) = false := by
+          cases hb : hasParameter w.heap o.indep (nameOf w.heap i2)
+          · rfl
+          · rw [hn2] at hb
+            exact absurd ((hasParameter_indep h h2).1 hb) hnot
+        simp only [shareParameter, setObj_heap, setLsn_heap, hhas, Bool.false_eq_true, if_false, setObj_setObj] at hr
+        rw [hr]
+        exact ⟨fun x => absurd rfl x, fun _ => ⟨i1, i2, l0, rfl, rfl, he, hnot, rfl⟩⟩
+
+theorem objInv_unaliased {w : World} {k : Nat} {o : Obj} (h : ObjInv w k o) {p1 p2 : String} {i1 i2 : ObjId} {l0 : Nat}
+    (h1 : find? w.heap o.params (o.pre ++ p1) = some i1) (h2 : find? w.heap o.params (o.pre ++ p2) = some i2)
+    (he : (aliasId p1 p2, l0) ∈ o.reg) (hnot : i2 ∉ o.indep) :
+    ObjInv (unaliased w k o p1 p2 i1 i2) k
+      { params := o.params, indep := o.indep ++ [i2], reg := mapErase (aliasId p1 p2) o.reg, pre := o.pre } := by
+  obtain ⟨hm1, hn1⟩ := ParamList.find?_some h1
+  obtain ⟨hm2, hn2⟩ := ParamList.find?_some h2
+  obtain ⟨hsrc, htgt⟩ := reg_entry_of_id h hm2 hn2 he
+  set W := unaliased w k o p1 p2 i1 i2 with hW
+  have hlsn : ∀ j, W.lsn j = if j = i1 then (w.lsn i1).filter (fun l => (w.lis l).id != aliasId p1 p2) else w.lsn j := by
+    intro j; simp [hW, unaliased]
+  have hsub : ∀ e, e ∈ mapErase (aliasId p1 p2) o.reg ↔ e ∈ o.reg ∧ e.1 ≠ aliasId p1 p2 := mem_mapErase _ _
+  -- the only entry that targets `i2` is the erased one
+  have honly : ∀ e ∈ o.reg, o.params[(w.lis e.2).alias]? = some i2 → e = (aliasId p1 p2, l0) := by
+    intro e hin ht
+    refine h.once e hin _ he ?_
+    exact h.pos_inj ht (by simpa using htgt) |> fun x => x
+  refine
+    { valid := h.valid, nodup := h.nodup, plain := h.plain, indepSub := ?_, indepNodup := ?_, indepIff := ?_,
+      regKeys := keys_mapErase _ h.regKeys, regOk := ?_, lsnOk := ?_, once := ?_, acyclic := ?_, hasRoot := ?_ }
+  · intro i hi
+    rcases List.mem_append.1 hi with a | a
+    · exact h.indepSub i a
+    · rw [List.mem_singleton.1 a]; exact hm2
+  · exact List.Nodup.append h.indepNodup (List.nodup_singleton _) (by
+      intro a ha hb; rw [List.mem_singleton.1 hb] at ha; exact hnot ha)
+  · intro i hi
+    show i ∈ o.indep ++ [i2] ↔ _
+    by_cases hii : i = i2
+    · subst hii
+      constructor
+      · rintro _ ⟨e, hin, ht⟩
+        obtain ⟨hin1, hne⟩ := (hsub e).1 hin
+        have := honly e hin1 ht
+        exact hne (by rw [this])
+      · intro _; simp
+    · constructor
+      · intro hin ⟨e, hre, ht⟩
+        have hin' : i ∈ o.indep := by
+          rcases List.mem_append.1 hin with a | a
+          · exact a
+          · exact absurd (List.mem_singleton.1 a) hii
+        exact (h.indepIff i hi).1 hin' ⟨e, ((hsub e).1 hre).1, ht⟩
+      · intro hno
+        refine List.mem_append_left _ ((h.indepIff i hi).2 ?_)
+        rintro ⟨e, hre, ht⟩
+        by_cases hk : e.1 = aliasId p1 p2
+        · have : e = (aliasId p1 p2, l0) := by
+            have hnd := h.regKeys
+            have h1' : (aliasId p1 p2, e.2) ∈ o.reg := by rw [← hk]; exact hre
+            have := (mapFind?_eq_some hnd).2 h1'
+            have := ((mapFind?_eq_some hnd).2 he).symm.trans this
+            cases e; simp only at hk; subst hk; simp only [Option.some.injEq] at this; rw [this]
+          subst this
+          simp only at ht
+          rw [htgt] at ht
+          exact hii (Option.some.inj ht).symm
+        · exact hno ⟨e, (hsub e).2 ⟨hre, hk⟩, ht⟩
+  · intro e hin
+    obtain ⟨hre, hne⟩ := (hsub e).1 hin
+    obtain ⟨r1, r2, r3, ⟨s, hs, hsn, hsl⟩, r5⟩ := h.regOk e hre
+    refine ⟨r1, r2, r3, ⟨s, hs, hsn, ?_⟩, r5⟩
+    rw [hlsn]; split
+    · rename_i e1; subst e1
+      exact List.mem_filter.2 ⟨hsl, by rw [r2]; simpa using hne⟩
+    · exact hsl
+  · intro i hi l hl
+    rw [hlsn] at hl
+    have hl' : l ∈ w.lsn i := by
+      split at hl
+      · rename_i e1; subst e1; exact (List.mem_filter.1 hl).1
+      · exact hl
+    obtain ⟨a, b⟩ := h.lsnOk i hi l hl'
+    refine ⟨(hsub _).2 ⟨a, ?_⟩, b⟩
+    intro hk
+    -- the listener with the erased id is attached to `i1` only, and was filtered out there
+    have hl0 : l = l0 := by
+      have h1' := (mapFind?_eq_some h.regKeys).2 (show (aliasId p1 p2, l) ∈ o.reg by rw [← hk]; exact a)
+      have h2' := (mapFind?_eq_some h.regKeys).2 he
+      rw [h1'] at h2'; exact Option.some.inj h2'
+    subst hl0
+    have : i = i1 := h.name_inj hi hm1 (by rw [b, hsrc, hn1])
+    subst this
+    simp only [if_true] at hl
+    have := (List.mem_filter.1 hl).2
+    have hk' : (w.lis l).id = aliasId p1 p2 := hk
+    rw [hk'] at this; simp at this
+  · intro e hin e' hin' ha
+    exact h.once e ((hsub e).1 hin).1 e' ((hsub e').1 hin').1 ha
+  · intro q hq
+    refine h.acyclic q (Relation.TransGen.mono ?_ q q hq)
+    rintro c d ⟨e, hin, hc, s, hs, hsn⟩
+    exact ⟨e, ((hsub e).1 hin).1, hc, s, hs, hsn⟩
+  · intro _ hnil
+    have : i2 ∈ o.indep ++ [i2] := by simp
+    have hnil' : o.indep ++ [i2] = [] := hnil
+    rw [hnil'] at this; cases this
+
+theorem inv_unalias {w : World} (h : Inv w) (k : Nat) (p1 p2 : String) : Inv (unalias w k p1 p2).w := by
+  cases ho : w.objs k with
+  | none =>
+    have : unalias w k p1 p2 = { w := w, err := some .ub } := by simp [unalias, ho]
+    rw [this]; exact h
+  | some o =>
+    have hi := h.obj k o ho
+    obtain ⟨s1, s2⟩ := unalias_spec hi ho p1 p2
+    cases hok : (unalias w k p1 p2).err with
+    | some e => rw [s1 (by rw [hok]; simp)]; exact h
+    | none =>
+      obtain ⟨i1, i2, l0, h1, h2, he, hnot, heq⟩ := s2 hok
+      rw [heq]
+      refine h.update (k := k) (P := o.params) rfl (fun o' ho' => by rw [ho] at ho'; cases ho'; rfl)
+        (fun hnone => by rw [ho] at hnone; cases hnone) ?_ (objInv_unaliased hi h1 h2 he hnot) (fun i hi' => Or.inl hi')
+      refine ⟨Nat.le_refl _, Nat.le_refl _, fun i _ hn => ⟨rfl, ?_⟩, fun l _ _ => rfl⟩
+      have : i ≠ i1 := fun e => hn (e ▸ (ParamList.find?_some h1).1)
+      simp [unaliased, this]
+
+/-! ## `aliasParameters(map)` -/
+
+theorem inv_bulkPass (k : Nat) : ∀ (todo : List (String × String)) (w : World) (pl : List Par) (kept : List (String × String)),
+    Inv w → Inv (bulkPass true k w pl kept todo).w
+  | [], w, pl, kept, h => h
+  | (key, val) :: todo, w, pl, kept, h => by
+    simp only [bulkPass]
+    split
+    · split
+      · split
+        · exact h
+        · exact inv_bulkPass k todo w pl _ h
+      · split
+        · exact h
+        · exact inv_bulkPass k todo w pl _ h
+    · split
+      · exact h
+      · have hi : Inv (aliasPairG true w k val key).w := inv_aliasPair h k val key
+        split
+        · exact hi
+        · exact inv_bulkPass k todo _ _ kept hi
+
+theorem inv_bulkLoop (k : Nat) : ∀ (f : Nat) (w : World) (pl : List Par) (m : List (String × String)),
+    Inv w → Inv (bulkLoop k f w pl m).w
+  | 0, w, pl, m, h => h
+  | f + 1, w, pl, m, h => by
+    simp only [bulkLoop]
+    split
+    · exact h
+    · have hp := inv_bulkPass k m w pl [] h
+      split
+      · exact hp
+      · split
+        · exact hp
+        · exact inv_bulkLoop k f _ _ _ hp
+
+theorem inv_bulkAlias {w : World} (h : Inv w) (k : Nat) (es : List (String × String)) : Inv (bulkAlias w k es).w := by
+  simp only [bulkAlias]
+  split
+  · exact h
+  · rename_i o _
+    have hl := inv_bulkLoop k ((mkMap es).length + 1) w
+      ((o.params.filter (fun i => (mapFind? (nameOf w.heap i) (mkMap es)).isNone)).map w.heap.get) (mkMap es) h
+    split
+    · exact hl
+    · split
+      · exact hl
+      · exact hl.sameShape (matchParametersValues_sameBut _ _ _).sameShape
+
+/-! ## `setNamespace(prefix)` -/
+
+theorem renameListeners_spec (old new : String) : ∀ (reg : List (String × Nat)) (w : World), (reg.map Prod.snd).Nodup →
+    let W := renameListeners old new w reg
+    W.heap = w.heap ∧ W.lsn = w.lsn ∧ W.objs = w.objs ∧ W.lnext = w.lnext ∧
+    ∀ l, W.lis l = if l ∈ reg.map Prod.snd then { w.lis l with name := renamed old new (w.lis l).name } else w.lis l
+  | [], w, _ => ⟨rfl, rfl, rfl, rfl, fun l => by simp [renameListeners]⟩
+  | e :: rest, w, nd => by
+    simp only [List.map_cons, List.nodup_cons] at nd
+    obtain ⟨a, b, c, d, f⟩ := renameListeners_spec old new rest
+      (w.setLis e.2 { w.lis e.2 with name := renamed old new (w.lis e.2).name }) nd.2
+    refine ⟨a, b, c, d, fun l => ?_⟩
+    simp only [renameListeners]
+    rw [f l]
+    simp only [List.map_cons, List.mem_cons, World.setLis]
+    by_cases hl : l = e.2
+    · subst hl
+      simp only [nd.1, if_false, true_or, if_true]
+    · simp only [hl, false_or, if_false]
+
+theorem setNamespace_spec (old new : String) : ∀ (l : List ObjId) (h : Store), l.Nodup →
+    (ParamList.setNamespace h old new l).next = h.next ∧
+    ∀ i, (ParamList.setNamespace h old new l).get i =
+      if i ∈ l then { h.get i with name := renamed old new (nameOf h i) } else h.get i
+  | [], h, _ => ⟨rfl, fun i => by simp [ParamList.setNamespace]⟩
+  | a :: rest, h, nd => by
+    simp only [List.nodup_cons] at nd
+    have key := setNamespace_spec old new rest
+      (h.put a { h.get a with name := renamed old new (nameOf h a) }) nd.2
+    obtain ⟨n1, n2⟩ := key
+    have hdef : ParamList.setNamespace h old new (a :: rest) =
+        ParamList.setNamespace (h.put a { h.get a with name := renamed old new (nameOf h a) }) old new rest := rfl
+    rw [hdef]
+    refine ⟨n1, fun i => ?_⟩
+    rw [n2 i]
+    by_cases hi : i = a
+    · subst hi
+      simp [nd.1]
+    · by_cases hr : i ∈ rest
+      · simp [hr, hi, nameOf]
+      · simp [hr, hi]
+
+theorem ObjInv.lisNodup {w : World} {k : Nat} {o : Obj} (h : ObjInv w k o) : (o.reg.map Prod.snd).Nodup := by
+  refine List.Nodup.map_on ?_ (List.Nodup.of_map _ h.regKeys)
+  intro e he e' he' hs
+  have h1 := (h.regOk e he).id
+  have h2 := (h.regOk e' he').id
+  rw [hs] at h1
+  cases e; cases e'; simp only at hs h1 h2; subst hs; rw [← h1, ← h2]
+
+/-- the world after `setNamespace(new)` -/
+def nsWorld (w : World) (k : Nat) (o : Obj) (new : String) : World :=
+  ({ renameListeners o.pre new w o.reg with
+      heap := ParamList.setNamespace (renameListeners o.pre new w o.reg).heap o.pre new o.params }).setObj k
+    { params := o.params, indep := o.indep, reg := o.reg, pre := new }
+
+theorem setNamespace_eq {w : World} {k : Nat} {o : Obj} (ho : w.objs k = some o) (new : String) :
+    setNamespace w k new = ({ w := nsWorld w k o new } : WR) := by
+  simp only [setNamespace, ho, nsWorld]
+
+theorem nsWorld_facts {w : World} {k : Nat} {o : Obj} (hi : ObjInv w k o) (new : String) :
+    (nsWorld w k o new).heap.next = w.heap.next ∧ (nsWorld w k o new).lnext = w.lnext ∧
+    (nsWorld w k o new).lsn = w.lsn ∧
+    (nsWorld w k o new).objs = (fun j => if j = k then some { params := o.params, indep := o.indep, reg := o.reg, pre := new }
+      else w.objs j) ∧
+    (∀ i, (nsWorld w k o new).heap.get i =
+      if i ∈ o.params then { w.heap.get i with name := renamed o.pre new (nameOf w.heap i) } else w.heap.get i) ∧
+    (∀ l, (nsWorld w k o new).lis l =
+      if l ∈ o.reg.map Prod.snd then { w.lis l with name := renamed o.pre new (w.lis l).name } else w.lis l) := by
+  obtain ⟨a, b, c, d, f⟩ := renameListeners_spec o.pre new o.reg w hi.lisNodup
+  obtain ⟨n1, n2⟩ := setNamespace_spec o.pre new o.params (renameListeners o.pre new w o.reg).heap hi.idsNodup
+  refine ⟨?_, ?_, ?_, ?_, ?_, ?_⟩
+  · show (ParamList.setNamespace (renameListeners o.pre new w o.reg).heap o.pre new o.params).next = _
+    rw [n1, a]
+  · exact d
+  · exact b
+  · show (fun j => if j = k then _ else (renameListeners o.pre new w o.reg).objs j) = _
+    rw [c]
+  · intro i
+    show (ParamList.setNamespace (renameListeners o.pre new w o.reg).heap o.pre new o.params).get i = _
+    rw [n2 i, a]
+  · intro l; exact f l
+
+theorem objInv_setNamespace {w : World} {k : Nat} {o : Obj} (h : ObjInv w k o) (new : String) {W : World}
+    (hnext : W.heap.next = w.heap.next) (hlnext : W.lnext = w.lnext) (hlsn : W.lsn = w.lsn)
+    (hname : ∀ i ∈ o.params, nameOf W.heap i = renamed o.pre new (nameOf w.heap i))
+    (hlis : ∀ e ∈ o.reg, W.lis e.2 = { w.lis e.2 with name := renamed o.pre new (w.lis e.2).name }) :
+    ObjInv W k { o with pre := new } := by
+  -- the name of a parameter: `pre ++ x` becomes `new ++ x`
+  have hnm : ∀ i ∈ o.params, ∀ x, nameOf w.heap i = o.pre ++ x → nameOf W.heap i = new ++ x := by
+    intro i hi x hx; rw [hname i hi, hx, renamed_append]
+  have hback : ∀ i ∈ o.params, ∀ x, nameOf W.heap i = new ++ x → nameOf w.heap i = o.pre ++ x := by
+    intro i hi x hx
+    obtain ⟨y, hy, _⟩ := h.plain i hi
+    rw [hnm i hi y hy] at hx
+    rw [hy, append_left_cancel' hx]
+  have hfol : Follows W { o with pre := new } = Follows w o := by
+    funext c q
+    apply propext
+    constructor
+    · rintro ⟨e, he, hc, s, hs, hsn⟩
+      rw [hlis e he] at hc hsn
+      exact ⟨e, he, hc, s, hs, hback s (List.mem_of_getElem? hs) _ hsn⟩
+    · rintro ⟨e, he, hc, s, hs, hsn⟩
+      refine ⟨e, he, by rw [hlis e he]; exact hc, s, hs, ?_⟩
+      rw [hlis e he]; exact hnm s (List.mem_of_getElem? hs) _ hsn
+  refine
+    { valid := fun i hi => by rw [hnext]; exact h.valid i hi, nodup := ?_, plain := ?_, indepSub := h.indepSub,
+      indepNodup := h.indepNodup, indepIff := ?_, regKeys := h.regKeys, regOk := ?_, lsnOk := ?_, once := ?_,
+      acyclic := fun p => by rw [hfol]; exact h.acyclic p, hasRoot := h.hasRoot }
+  · show (names W.heap o.params).Nodup
+    refine List.Nodup.map_on ?_ h.idsNodup
+    intro i hi j hj e
+    obtain ⟨x, hx, _⟩ := h.plain i hi
+    obtain ⟨y, hy, _⟩ := h.plain j hj
+    rw [hnm i hi x hx, hnm j hj y hy] at e
+    have := append_left_cancel' e
+    exact h.name_inj hi hj (by rw [hx, hy, this])
+  · intro i hi
+    obtain ⟨x, hx, px⟩ := h.plain i hi
+    exact ⟨x, hnm i hi x hx, px⟩
+  · intro i hi
+    rw [h.indepIff i hi]
+    constructor
+    · rintro hn ⟨e, he, ht⟩; exact hn ⟨e, he, by rw [hlis e he] at ht; exact ht⟩
+    · rintro hn ⟨e, he, ht⟩; exact hn ⟨e, he, by rw [hlis e he]; exact ht⟩
+  · intro e he
+    obtain ⟨r1, r2, r3, ⟨s, hs, hsn, hsl⟩, ⟨t, y, ht, htn, hnm', hid⟩⟩ := h.regOk e he
+    refine ⟨by rw [hlnext]; exact r1, by rw [hlis e he]; exact r2, by rw [hlis e he]; exact r3,
+      ⟨s, hs, by rw [hlis e he]; exact hnm s hs _ hsn, by rw [hlsn]; exact hsl⟩,
+      ⟨t, y, by rw [hlis e he]; exact ht, hnm t (List.mem_of_getElem? ht) y htn, ?_, by rw [hlis e he]; exact hid⟩⟩
+    rw [hlis e he]
+    show renamed o.pre new (w.lis e.2).name = new ++ y
+    rw [hnm', renamed_append]
+  · intro i hi l hl
+    rw [hlsn] at hl
+    obtain ⟨a, b⟩ := h.lsnOk i hi l hl
+    have := hlis _ a
+    simp only at this
+    rw [this]
+    exact ⟨a, hnm i hi _ b⟩
+  · intro e he e' he' ha
+    rw [hlis e he, hlis e' he'] at ha
+    exact h.once e he e' he' ha
+
+theorem inv_setNamespace {w : World} (h : Inv w) (k : Nat) (new : String) : Inv (setNamespace w k new).w := by
+  cases ho : w.objs k with
+  | none =>
+    have : setNamespace w k new = { w := w, err := some .ub } := by simp [setNamespace, ho]
+    rw [this]; exact h
+  | some o =>
+    have hi := h.obj k o ho
+    rw [setNamespace_eq ho]
+    obtain ⟨f1, f2, f3, f4, f5, f6⟩ := nsWorld_facts hi new
+    show Inv (nsWorld w k o new)
+    refine h.update (k := k) (P := o.params) (o' := { params := o.params, indep := o.indep, reg := o.reg, pre := new })
+      f4 (fun o' ho' => by rw [ho] at ho'; cases ho'; rfl)
+      (fun hnone => by rw [ho] at hnone; cases hnone) ?_ ?_ (fun i hi' => Or.inl hi')
+    · refine ⟨by rw [f1], by rw [f2], fun i _ hn => ⟨?_, by rw [f3]⟩, fun l _ hp => ?_⟩
+      · simp only [nameOf, f5 i, hn, if_false]
+      · rw [f6 l]
+        split
+        · rename_i hm
+          obtain ⟨e, he, hs⟩ := List.mem_map.1 hm
+          exact absurd (hs ▸ (hi.regOk e he).pl) hp
+        · rfl
+    · refine objInv_setNamespace hi new f1 f2 f3 ?_ ?_
+      · intro i him
+        simp only [nameOf, f5 i, him, if_true]
+      · intro e he
+        rw [f6 e.2, if_pos (List.mem_map.2 ⟨e, he, rfl⟩)]
+
 end Bpp.Alias
